@@ -95,8 +95,18 @@ Core == [ok |-> fin.ok, end |-> fin.end, toks |-> ByteToks(fin.toks), ptoks |-> 
 \* derivation records with byte offsets
 DvB(x) == [f \in DOMAIN x |-> IF f \in {"s", "m", "e"} THEN Off(x[f]) ELSE x[f]]
 ByteDv(q) == [i \in 1..Len(q) |-> DvB(q[i])]
+\* hook events with byte offsets
+EvB(e) == CASE e[1] = "r+" -> <<"r+", e[2], Off(e[3])>>
+            [] e[1] = "r-" -> <<"r-", e[2], Off(e[3]), e[4]>>
+            [] e[1] = "t+" -> <<"t+", ByteStk(e[2])>>
+            [] e[1] = "t-" -> <<"t-", e[2], ByteStk(e[3])>>
+            [] e[1] = "p+" -> <<"p+", e[2], ByteStk(e[3])>>
+            [] e[1] = "p-" -> <<"p-", e[2], ByteStk(e[3])>>
+            [] OTHER -> <<e[1], ByteStk(e[2])>>
+ByteEv(q) == [i \in 1..Len(q) |-> EvB(q[i])]
 Extra == IF EmitMode = "all" THEN [calls |-> ByteCalls(fin.calls), log |-> ByteLog(log), plog |-> ByteLog(fin.log)]
-         ELSE IF EmitMode = "dv" THEN [calls |-> ByteCalls(fin.calls), dv |-> ByteDv(fin.dv)] ELSE [x |-> 0]
+         ELSE IF EmitMode = "dv" THEN [calls |-> ByteCalls(fin.calls), dv |-> ByteDv(fin.dv)]
+         ELSE IF EmitMode = "ev" THEN [ev |-> ByteEv(fin.evs)] ELSE [x |-> 0]
 Record == IF pc = "done" THEN Base @@ Core @@ Extra ELSE Base
 
 EmitBehaviour == Halted => PrintT(<<"B", ToJson(Record)>>)
